@@ -47,7 +47,7 @@ BAD_LATE = (b"".join(b"password lateSecret%d\n peer 138.7.6.%d\n" % (i, i % 250)
             + b"password zzz \xff\xfe\x80 tail\nhostname end\n")
 FAULTS = ["undecodable", "undecodable-late", "outpath-is-dir", "outparent-is-file", "dangling-symlink"]
 ORDERS = ["sorted", "reversed", "rotated"]
-OUTSTATES = ["absent", "empty-dir", "stale-file"]
+OUTSTATES = ["absent", "empty-dir", "stale-file", "previous-output"]
 INPATHS = ["abs", "abs-trailing-sep", "relative", "dot-relative-trailing-sep", "double-sep"]
 FEATURES = ["ip", "pwd+ip"]
 
@@ -111,6 +111,18 @@ def setup(root, tree, faults, outstate):
     if outstate == "stale-file":
         with open(os.path.join(outd, "stale.txt"), "w") as f:
             f.write("stale 10.1.2.3\n")
+    if outstate == "previous-output":
+        # the output of an earlier, different run is still there (longer files of the same names)
+        for e in tree:
+            if not e.endswith("/") and not os.path.basename(e).startswith(".") and faults.get(e) not in (
+                    "outpath-is-dir", "outparent-is-file"):
+                p = os.path.join(outd, e)
+                try:
+                    os.makedirs(os.path.dirname(p), exist_ok=True)
+                    with open(p, "w") as f:
+                        f.write("! output of an earlier run\n" * 40 + "password oldPseudonym 9.9.9.9\n")
+                except OSError:
+                    pass
     for e, kd in faults.items():
         if kd == "outpath-is-dir":
             os.makedirs(os.path.join(outd, e))
@@ -205,8 +217,17 @@ def judge(res, tree, faults, outstate, order, feat, rc, root_factory, inpath="ab
         res.violation("unexpected-path-created|" + ("hidden" if "/." in p else "other"),
                       "tree %r faults %r: %r created" % (tree, faults, p), rc)
     for p, data in before.items():
-        if p.startswith("out") and p not in optional and not p.endswith("/") and after.get(p) != data:
+        if (p.startswith("out") and p not in optional and p not in expect_files and not p.endswith("/")
+                and after.get(p) != data):
             res.violation("pre-existing-output-file-changed", "%r" % p, rc)
+    if outstate == "previous-output" and healthy:
+        root3 = root_factory()
+        _, clean_after, _, _ = run_dir(root3, tree, faults, "absent", order, feat, inpath=inpath)
+        for f in healthy:
+            p = os.path.join("out", f)
+            if after.get(p) != clean_after.get(p):
+                res.violation("output-depends-on-previous-output-file", "%r: %r vs run into an empty place %r" % (
+                    p, (after.get(p) or b"")[-60:], (clean_after.get(p) or b"")[-60:]), rc)
     for p in sorted(expect_files):
         if after.get(p) is None:
             res.violation("output-file-missing|" + tag, "tree %r faults %r order %s: %r missing" % (
